@@ -266,6 +266,9 @@ def _time_add(a, pre):
         return t.add(**_tkw(a))
     if en == "subtract":
         return t.subtract(**_tkw(a))
+    if en in ("plus_dur", "minus_dur", "radd_dur"):          # a pendulum Duration as the amount
+        d = P().Duration(**_tkw(a))
+        return t + d if en == "plus_dur" else (t - d if en == "minus_dur" else d + t)
     td = _dt.timedelta(**_tkw(a))
     if en == "plus_td":
         return t + td
